@@ -94,15 +94,16 @@ def run(sid, tier="quick", props=None):
         patch = os.path.join(VERIF, "mutants", sid + ".patch")
         meta = json.load(open(os.path.join(VERIF, "mutants", sid + ".json")))
     props = props or [meta["property"]]
-    rc, out = sh("git -C /repo status --porcelain")
-    assert out.strip() == "", "/repo is not clean: " + out
-    rc, out = sh("git -C /repo apply %s" % patch)
+    repo = os.environ.get("SEED_REPO", "/repo")  # a scratch worktree, when /repo itself is busy
+    rc, out = sh("git -C %s status --porcelain" % repo)
+    assert out.strip() == "", repo + " is not clean: " + out
+    rc, out = sh("git -C %s apply %s" % (repo, patch))
     assert rc == 0, out
     results = {}
     try:
         for p in props:
             t0 = time.time()
-            rc, out = sh("cd %s && rm -rf replays/%s-* && ./check %s %s" % (VERIF, p, p, tier), timeout=3600)
+            rc, out = sh("cd %s && rm -rf replays/%s-* && VERIF_REPO=%s ./check %s %s" % (VERIF, p, repo, p, tier), timeout=3600)
             viol = [l for l in out.splitlines() if l.startswith("VIOLATION")]
             rules = sorted(set(re.findall(r"rules=\[([^\]]*)\]", out)))
             first = ""
@@ -115,7 +116,7 @@ def run(sid, tier="quick", props=None):
             if rc == 2:
                 print(out[-1500:])
     finally:
-        sh("git -C /repo checkout -- . && git -C /repo clean -fdq")
+        sh("git -C %s checkout -- . && git -C %s clean -fdq" % (repo, repo))
     meta.setdefault("check_runs", {})
     for p, r in results.items():
         meta["check_runs"][p + "/" + tier] = r
